@@ -688,6 +688,14 @@ func run(cfg *Config, opt core.Options, res *core.Result) *sim {
 				w.head = blk
 			}
 			res.Stat("blocks_produced", 1)
+			if s.opt.Property == "C14" {
+				if pre, err := w.advance(parent, blk.slot); err == nil {
+					s.checkEnvelopeSignature(blk, pre)
+				}
+				if s.stop {
+					break
+				}
+			}
 			if s.steps {
 				s.checkBlockStep(parent, blk)
 				if s.stop {
